@@ -354,6 +354,11 @@ func runC03(r *core.Run) {
 		}
 		corpusSub(r, "option-channels/"+cn, core.MustCfg(cn), nil, func(s *core.Sub, cv *core.Conv, w []byte) { c03Case(s, cv, w, "option-channels") })
 	}
+	// attributes that cannot be written in Markdown, set on every node by an AST transformer: every element's attribute
+	// rendering, under HTML5 and XHTML
+	for _, cn := range []string{"all+attrall", "all+attr+autoid+attrall+xhtml"} {
+		corpusSub(r, "attributes-on-every-node/"+cn, core.MustCfg(cn), nil, func(s *core.Sub, cv *core.Conv, w []byte) { c03Case(s, cv, w, "attributes-on-every-node") })
+	}
 	// long payloads of every length in every sink (buffers, chunked escaping, multi-byte sequences at chunk borders)
 	lengthSub(r, "lengths/all+attr+autoid+xhtml", core.MustCfg("all+attr+autoid+xhtml"), core.Pick(r, 600, 2200), func(s *core.Sub, cv *core.Conv, w []byte) { c03Case(s, cv, w, "lengths") })
 	// every byte value in every sink
